@@ -217,7 +217,7 @@ class KaniCheck:
             return
         j = json.load(open(jpath))
         self.kani_version = "kani %s / cbmc %s" % (j.get("tools", {}).get("kani"), j.get("tools", {}).get("cbmc"))
-        stats = {c["harness_id"]: c.get("cbmc_stats", {}) for c in j.get("cbmc", [])}
+        stats = {c["harness_id"]: (c.get("cbmc_stats") or {}) for c in j.get("cbmc", [])}
         errs = {e["harness_id"]: e for e in j.get("error_details", [])}
         for res in j.get("verification_results", {}).get("results", []):
             r = byid.get(res["harness_id"])
@@ -237,6 +237,7 @@ class KaniCheck:
         return [h for s in self.shapes for h in s.harnesses]
 
     def _classify(self, r, res, st, err):
+        st = st or {}
         r.wall_ms = res.get("duration_ms", 0)
         r.vccs = st.get("vccs_generated", 0)
         r.vccs_remaining = st.get("vccs_remaining", 0)
@@ -396,7 +397,7 @@ class KaniCheck:
 
 PLAYBACK_BLOCK = re.compile(
     r"^[ \t]*/// Test generated for harness `([^`]+)`[ \t]*\n[ \t]*///[ \t]*\n[ \t]*/// Check for `(\w+)`: ([^\n]*)\n"
-    r"(?:[ \t]*\n)*[ \t]*#\[test\][ \t]*\n[ \t]*fn (\w+)\(\) \{.*?kani::concrete_playback_run\([^\n]*\n[ \t]*\}[ \t]*\n",
+    r"(?:[ \t]*///[^\n]*\n|[ \t]*\n)*[ \t]*#\[test\][ \t]*\n[ \t]*fn (\w+)\(\) \{.*?kani::concrete_playback_run\([^\n]*\n[ \t]*\}[ \t]*\n",
     re.S | re.M)
 
 
